@@ -61,6 +61,52 @@ fn run_one(c: &Value) -> Value {
   json!({"routed": routes, "delivered": bob.n.load(Ordering::SeqCst), "errors": errors, "churn_ok": churn_ok})
 }
 
+// "exclusive": several threads register the SAME name exclusively at the same instant, round after round: exactly one
+// registration per round may succeed (the name is then released for the next round).
+fn run_exclusive(c: &Value) -> Value {
+  let rounds = c["rounds"].as_u64().unwrap_or(20_000);
+  let threads = c["threads"].as_u64().unwrap_or(4) as usize;
+  let router = c2s::Router::new_with_shard_count(StringAtom::from("localhost"), 2);
+  let barrier = Arc::new(std::sync::Barrier::new(threads));
+  let wins = Arc::new(AtomicU64::new(0));
+  let doubles = Arc::new(AtomicU64::new(0));
+  let gate = Arc::new(AtomicU64::new(0));
+  let mut hs = Vec::new();
+  for t in 0..threads {
+    let (router, barrier, wins, doubles, gate) = (router.clone(), barrier.clone(), wins.clone(), doubles.clone(), gate.clone());
+    hs.push(std::thread::spawn(move || {
+      let tx = Arc::new(Counting { n: AtomicU64::new(0), handler: 100 + t });
+      let name = StringAtom::from("alice");
+      for round in 0..rounds {
+        barrier.wait();
+        // a spinning start line: the registrations of one round begin within nanoseconds of each other
+        gate.fetch_add(1, Ordering::SeqCst);
+        while gate.load(Ordering::SeqCst) < (round + 1) * threads as u64 {
+          std::hint::spin_loop();
+        }
+        let won = router.register_connection(name.clone(), tx.clone(), 100 + t, true);
+        if won {
+          wins.fetch_add(1, Ordering::SeqCst);
+        }
+        barrier.wait();
+        // thread 0 judges the round, then every winner releases the name
+        if t == 0 {
+          let w = wins.swap(0, Ordering::SeqCst);
+          if w != 1 {
+            doubles.fetch_add(1, Ordering::SeqCst);
+          }
+        }
+        barrier.wait();
+        if won {
+          let _ = futures::executor::block_on(router.unregister_connection(&name, 100 + t, || async { Ok::<(), ()>(()) }));
+        }
+      }
+    }));
+  }
+  let ok = hs.into_iter().all(|h| h.join().is_ok());
+  json!({"rounds": rounds, "threads": threads, "bad_rounds": doubles.load(Ordering::SeqCst), "threads_ok": ok})
+}
+
 pub fn run(cases: &Value) -> Value {
-  Value::Array(cases.as_array().unwrap().iter().map(run_one).collect())
+  Value::Array(cases.as_array().unwrap().iter().map(|c| if c.get("exclusive").is_some() { run_exclusive(c) } else { run_one(c) }).collect())
 }
